@@ -317,7 +317,23 @@ def decide(prop, scratch, tier, seed, t0):
     if unlisted:
         f = unlisted[0]
         payload = make_replay(pid, f, "direct oracle on the implementation", tie_broken)
-        if payload.get("ops"):
+        if payload.get("ops") and f.get("full") is not None and f.get("n") is not None and not f.get("found_by_isolation"):
+            try:
+                base_keep = chain_for(f["full"], f["n"])
+                for extra_n in f.get("also", []):
+                    base_keep = sorted(set(base_keep) | set(chain_for(f["full"], extra_n)))
+                keep, hruns, ok = history_for(prop, scratch, f, base_keep)
+                payload["reproduction_runs"] = hruns
+                if ok is False:
+                    payload["note"] = "the failure was observed in the long stream but neither its chain alone nor the preceding history reproduced it in a fresh process (possibly order- or timing-dependent); the ops listed are the minimal creating chain"
+                elif ok and list(keep) != list(base_keep):
+                    payload["history_dependent"] = True
+                    payload["ops"] = [to_placeholder(o) for o in renumber(f["full"], keep)]
+                    payload["ops_pretty"] = describe_ops(payload["ops"])
+                    payload["note"] = "the failing call is correct on its own: the replay includes the earlier calls of the same process that are needed to reproduce it"
+            except Exception as ex:
+                payload["history_error"] = repr(ex)
+        if payload.get("ops") and not payload.get("history_dependent"):
             try:
                 small, runs = shrink(prop, scratch, [to_placeholder(o) for o in payload["ops"]], f.get("backend"), f.get("class"))
                 if runs:
@@ -397,7 +413,7 @@ def decide(prop, scratch, tier, seed, t0):
 STR_FIELDS = {"new": [3], "q": [3], "uq": [3], "su": [1], "sn": [1], "np": [1], "pq": [1], "eh": [1], "hq": [1]}
 
 
-def shrink(prop, scratch, ops, backend, cls, budget=70):
+def shrink(prop, scratch, ops, backend, cls, budget=90):
     """delta-debug the string arguments of a failing op chain: delete code points while the direct oracle still
     reports a failure of the same class on the real code.  Returns the (possibly) smaller chain."""
     if not prop.oracle or backend not in ("py", "c") or cls in ("backend-mismatch",):
@@ -419,6 +435,19 @@ def shrink(prop, scratch, ops, backend, cls, budget=70):
     runs = 0
     cur = list(ops)
     last_what = [None]
+    # op-level pass for chains of handle-free calls (quoters, splitters …): drop whole calls while the failure persists
+    if len(cur) > 1 and all(o.split("\t")[0] in STR_FIELDS and o.split("\t")[0] != "new" for o in cur):
+        block = max(1, len(cur) // 2)
+        while block >= 1 and runs < budget:
+            i = 0
+            while i < len(cur) and len(cur) > 1 and runs < budget:
+                cand = cur[:i] + cur[i + block:]
+                runs += 1
+                if cand and still_fails(cand):
+                    cur = cand
+                else:
+                    i += block
+            block //= 2
     improved = True
     while improved and runs < budget:
         improved = False
@@ -466,45 +495,187 @@ def isolated_search(prop, scratch, disagreements, known, stats, limit=48):
         if len(picked) >= limit:
             break
     out = []
+    # stateless calls (quoters / unquoters): the long stream ran the configurations in one fixed order; a leak of state between
+    # configurations shows its harmful direction only in the opposite order — re-run every configuration on the disagreeing
+    # inputs in REVERSED order in a fresh process
+    import gens
+    seen_s = []
+    for d in disagreements:
+        f = d["op"].split("\t")
+        if f[0] in ("q", "uq") and (d["backend"], f[3]) not in seen_s:
+            seen_s.append((d["backend"], f[3]))
+        if len(seen_s) >= 24:
+            break
+    for b in ("py", "c"):
+        strs = [x for bb, x in seen_s if bb == b]
+        if not strs:
+            continue
+        rops = [f"q\t{b}\t{qn}\t{x}" for qn in reversed(gens.QUOTERS) for x in strs] + \
+               [f"uq\t{b}\t{qn}\t{x}" for qn in reversed(gens.UNQUOTERS) for x in strs]
+        io, err = core.run_impl(scratch, rops, b, timeout=300)
+        stats["isolated_reexecutions"] += 1
+        if io is None:
+            continue
+        try:
+            fs = prop.oracle(rops, io, b)
+        except Exception:
+            fs = []
+        fs = [f for f in fs if not any(kk.get("status") == "known" and props.known_match(kk, f) for kk in known)]
+        if fs:
+            f = fs[0]
+            f.setdefault("backend", b)
+            f["stream"] = "reversed-configuration-order"
+            f["full"] = rops
+            f["also"] = list(range(0, f.get("n", 0)))
+            f["found_by_isolation"] = True
+            out.append(f)
+            return out
     for d in picked:
         full = d["full"]
         keep = chain_for(full, d["n"])
         ops = [to_placeholder(o) for o in renumber(full, keep)]
         nh = sum(1 for o in ops if o.split("\t")[0] in props.CREATORS)
+        allobs = urlgen.OBS_ALL + ["val"]
+        # variant "cold": the chain, then every accessor of every handle;  variant "warm": every accessor of a handle is read
+        # right after the handle is created, i.e. BEFORE anything is derived from it (a derivation that carries cached values over)
+        variants = []
         ext = list(ops)
         for h in range(nh):
-            for name in (urlgen.OBS_ALL + ["val"]):
+            for name in allobs:
                 ext.append("obs\tB\t%d\t%s" % (h, name))
-        k = nh
-        for h in range(nh):
-            ext.append("rt\tB\t%d" % h)
-            ext.append("pkl\t%d" % h)
-            for name in (urlgen.OBS_ALL + ["val"]):
-                ext.append("obs\tB\t%d\t%s" % (k, name))
-                ext.append("obs\tB\t%d\t%s" % (k + 1, name))
-            k += 2
-        b = d["backend"]
-        b_ops = [o.replace("\tB\t", f"\t{b}\t") for o in ext]
-        io, err = core.run_impl(scratch, b_ops, b, timeout=300)
-        stats["isolated_reexecutions"] += 1
-        if io is None:
-            out.append({"what": f"worker process died re-executing {props.pretty(d['op'])} in isolation: {err[-300:]}", "class": "crash", "backend": b,
-                        "full": b_ops, "n": len(ops) - 1, "stream": d["stream"] + "/isolated"})
-            break
-        try:
-            fs = prop.oracle(b_ops, io, b)
-        except Exception:
-            continue
-        fs = [f for f in fs if not any(kk.get("status") == "known" and props.known_match(kk, f) for kk in known)]
-        if fs:
-            f = fs[0]
-            f.setdefault("backend", b)
-            f["stream"] = d["stream"] + "/isolated"
-            f["full"] = b_ops
-            f["found_by_isolation"] = True
-            out.append(f)
+        variants.append(ext)
+        warm = []
+        hc = 0
+        for o in ops:
+            warm.append(o)
+            if o.split("\t")[0] in props.CREATORS:
+                for name in allobs:
+                    warm.append("obs\tB\t%d\t%s" % (hc, name))
+                hc += 1
+        variants.append(warm)
+        hit = False
+        for ext in variants:
+            k = nh
+            for h in range(nh):
+                ext.append("rt\tB\t%d" % h)
+                ext.append("pkl\t%d" % h)
+                for name in allobs:
+                    ext.append("obs\tB\t%d\t%s" % (k, name))
+                    ext.append("obs\tB\t%d\t%s" % (k + 1, name))
+                k += 2
+            b = d["backend"]
+            b_ops = [o.replace("\tB\t", f"\t{b}\t") for o in ext]
+            io, err = core.run_impl(scratch, b_ops, b, timeout=300)
+            stats["isolated_reexecutions"] += 1
+            if io is None:
+                out.append({"what": f"worker process died re-executing {props.pretty(d['op'])} in isolation: {err[-300:]}", "class": "crash", "backend": b,
+                            "full": b_ops, "n": len(ops) - 1, "stream": d["stream"] + "/isolated"})
+                hit = True
+                break
+            try:
+                fs = prop.oracle(b_ops, io, b)
+            except Exception:
+                continue
+            fs = [f for f in fs if not any(kk.get("status") == "known" and props.known_match(kk, f) for kk in known)]
+            if fs:
+                f = fs[0]
+                f.setdefault("backend", b)
+                f["stream"] = d["stream"] + "/isolated"
+                f["full"] = b_ops
+                f["also"] = list(range(0, len(b_ops)))      # keep the whole (short) re-execution: the reads are part of the history
+                f["found_by_isolation"] = True
+                out.append(f)
+                hit = True
+                break
+        if hit:
             break
     return out
+
+
+def closure(full, idxs):
+    """the given op indices plus every op that creates a handle they (transitively) refer to"""
+    creators = [n for n, o in enumerate(full) if o.split("\t")[0] in props.CREATORS]
+    keep = set()
+    stack = list(idxs)
+    while stack:
+        n = stack.pop()
+        if n in keep:
+            continue
+        keep.add(n)
+        f = full[n].split("\t")
+        op = f[0]
+        hs = []
+        if op in ("obs", "mod", "rt", "hr"):
+            hs = [int(f[2])]
+        elif op == "jn":
+            hs = [int(f[2]), int(f[3])]
+        elif op == "cmp":
+            hs = [int(f[1]), int(f[2])]
+        elif op == "pkl":
+            hs = [int(f[1])]
+        for h in hs:
+            if h < len(creators):
+                stack.append(creators[h])
+    return sorted(keep)
+
+
+def history_for(prop, scratch, f, base_keep, max_runs=30):
+    """A failure whose minimal creating chain does NOT reproduce it alone depends on what the process did before
+    (caches, memo tables, shared objects).  Find a short history that does reproduce it: the chain plus a window of the
+    ops that preceded the failing one, widened geometrically and then thinned greedily."""
+    full, n, b, cls = f["full"], f["n"], f.get("backend"), f.get("class")
+    if b not in ("py", "c") or not prop.oracle:
+        return base_keep, 0, None
+    runs = [0]
+
+    def reproduces(keep):
+        runs[0] += 1
+        ops = [to_placeholder(o) for o in renumber(full, keep)]
+        b_ops = [o.replace("\tB\t", f"\t{b}\t") for o in ops]
+        io, err = core.run_impl(scratch, b_ops, b, timeout=600)
+        if io is None:
+            return cls == "crash"
+        try:
+            return any(x.get("class") == cls for x in prop.oracle(b_ops, io, b))
+        except Exception:
+            return False
+
+    if reproduces(base_keep):
+        return base_keep, runs[0], True
+    found = None
+    w = 16
+    while True:
+        lo = max(0, n - w)
+        keep = closure(full, list(range(lo, n + 1)) + list(base_keep))
+        if reproduces(keep):
+            found = (lo, keep)
+            break
+        if lo == 0 or runs[0] >= max_runs:
+            break
+        w *= 8
+    if not found:
+        return base_keep, runs[0], False
+    lo, keep = found
+    # thin the window: drop blocks of ops (never the base chain) while the failure still reproduces
+    base = set(base_keep)
+    window = [i for i in range(lo, n + 1) if i not in base]
+    block = max(1, len(window) // 4)
+    while block >= 1 and runs[0] < max_runs:
+        i = 0
+        changed = False
+        while i < len(window) and runs[0] < max_runs:
+            cand = window[:i] + window[i + block:]
+            k2 = closure(full, cand + list(base_keep))
+            if reproduces(k2):
+                window = cand
+                keep = k2
+                changed = True
+            else:
+                i += block
+        if block == 1 and not changed:
+            break
+        block = block // 2 if block > 1 else (1 if changed else 0)
+    return keep, runs[0], True
 
 
 def make_replay(pid, f, how, tie_broken):
